@@ -1104,6 +1104,22 @@ func (e *Env) trCall(n *ECall) Val {
 			}
 		}
 	}
+	// ... or a pure function of another package (unambiguous unqualified name)
+	{
+		var hit *FuncContract
+		n2 := 0
+		for _, fc := range u.cx.cs.Funcs {
+			if fc.Pure && fc.Name == n.Fn {
+				hit = fc
+				n2++
+			}
+		}
+		if n2 == 1 {
+			if fn := u.cx.lookupFn(hit.PkgPath, hit.Name); fn != nil {
+				return e.pureApp(fn.String(), fn.Signature, args())
+			}
+		}
+	}
 	e.fail("unknown function %s", n.Fn)
 	return Val{}
 }
